@@ -525,6 +525,8 @@ func sweepInputs(c *Ctx) []buildInput {
 	for k := 0; k < nchains; k++ {
 		ins = append(ins, chainInput(r))
 	}
+	// two files referring to one file with every pair of relations (c04struct.go)
+	ins = append(ins, diamondInputs(r.Intn)...)
 	// every filler in every gap of the skeleton of every block statement (c04struct.go)
 	ins = append(ins, structuralInputs(c.Thorough())...)
 	// every truncation of corpus files
